@@ -11,6 +11,8 @@ for res in sorted(glob.glob('/tmp/sc/results/*.json')):
         continue
     parts = seed.strip('/').split('/')
     pid, m = parts[-2], parts[-1]
+    if os.path.isdir(seed + 'b'):
+        continue  # superseded by a hand-rebased patch (<m>b)
     dst = os.path.join('/verif/seeded', pid, m)
     os.makedirs(dst, exist_ok=True)
     for f in glob.glob(seed + '/*'):
